@@ -907,6 +907,12 @@ def check(tier_name: str, seed: int, max_runs: int | None = None) -> int:
         sample_runs.append({"env": run["env"], "ops": [{"kind": op["kind"], "family": op.get("family"), "id": op["id"],
                                                         "fault": op.get("fault"), "reuse": op.get("reuse")} for op in run["ops"]],
                             "log": [{k: rec.get(k) for k in ("i", "status", "faulted", "fault_site", "calls")} for rec in o["log"]]})
+    # one operation written out in full (truncated), so a reader sees what a target looks like
+    for sr, (run, o) in zip(sample_runs, [(r, o) for r, o in zip(runs, outs) if "error" not in o]):
+        op0 = run["ops"][0]
+        body = op0.get("src") or (op0.get("model") or {}).get("text") or jdump(op0.get("model"))
+        sr["first_operation_in_full"] = {k: v for k, v in op0.items() if k not in ("src", "model")}
+        sr["first_operation_in_full"]["source_or_model"] = str(body)[:1800]
     coverage = {
         "evaluations": evals,
         "distinct_nontrivial": len(hist_sigs),
